@@ -26,5 +26,17 @@ CHECKS.update({
     },
 })
 
+# further checks live in checklib/manifest_*.py (each defines CHECKS = {...} and optionally NOT_APPLICABLE_REASONS)
+import glob as _glob, importlib.util as _ilu, os as _os
+NA_REASONS = {}
+for _f in sorted(_glob.glob(_os.path.join(_os.path.dirname(_os.path.abspath(__file__)), "manifest_*.py"))):
+    if _os.path.basename(_f) == "manifest_data.py":
+        continue
+    _spec = _ilu.spec_from_file_location(_os.path.basename(_f)[:-3], _f)
+    _m = _ilu.module_from_spec(_spec)
+    _spec.loader.exec_module(_m)
+    CHECKS.update(getattr(_m, "CHECKS", {}))
+    NA_REASONS.update(getattr(_m, "NOT_APPLICABLE_REASONS", {}))
+
 _WIP = "machinery for this property is not built yet in this snapshot (work in progress; see DESIGN.md build order)"
-NOT_APPLICABLE = {p: _WIP for p in ["C%02d" % i for i in range(1, 21)] if p not in CHECKS}
+NOT_APPLICABLE = {p: NA_REASONS.get(p, _WIP) for p in ["C%02d" % i for i in range(1, 21)] if p not in CHECKS}
